@@ -144,9 +144,21 @@ def gen_pack(rng, world, flavour=None, allow_iterative=True):
                 perms.reverse()
         else:
             perms = [[1, 0] + list(range(2, n))]
+        ef_all = rng.random() < 0.3
         for pm in perms:
-            # mixed declarations: a two-way renaming can close a cycle whose other edges are one-way
-            initial.append({"t": "Rename", "perm": pm, "two_way": rng.random() < 0.3, "ignore_parent": False, "mask": _mask(rng, 0.1), "lazy": False})
+            # mixed declarations: a two-way renaming can close a cycle whose other edges are one-way;
+            # empty_first: every step of the cycle is a two-child rule whose first child is empty
+            initial.append(
+                {
+                    "t": "Rename",
+                    "perm": pm,
+                    "two_way": rng.random() < 0.3,
+                    "ignore_parent": False,
+                    "mask": _mask(rng, 0.1),
+                    "lazy": False,
+                    "empty_first": ef_all or rng.random() < 0.15,
+                }
+            )
     rng.shuffle(inferral)
     exp_mask = _mask(rng, 0.35)
     drop = bool(tracked) and rng.random() < 0.35
